@@ -91,3 +91,84 @@ func mNewRequestWithContext(ctx context.Context, method, urlStr string, body io.
 	}
 	return r.WithContext(ctx), nil
 }
+
+// mResolvePath is net/url's resolvePath (RFC 3986 §5.2.2–5.2.4) on unescaped paths.
+func mResolvePath(base, ref string) string {
+	var full string
+	if ref == "" {
+		full = base
+	} else if ref[0] != '/' {
+		i := strings.LastIndex(base, "/")
+		full = base[:i+1] + ref
+	} else {
+		full = ref
+	}
+	if full == "" {
+		return ""
+	}
+	dst := "/"
+	first := true
+	remaining := full
+	elem := ""
+	found := true
+	for found {
+		if i := strings.Index(remaining, "/"); i >= 0 {
+			elem, remaining, found = remaining[:i], remaining[i+1:], true
+		} else {
+			elem, remaining, found = remaining, "", false
+		}
+		if elem == "." {
+			first = false
+			continue
+		}
+		if elem == ".." {
+			str := dst[1:]
+			index := strings.LastIndex(str, "/")
+			dst = "/"
+			if index == -1 {
+				first = true
+			} else {
+				dst += str[:index]
+			}
+		} else {
+			if !first {
+				dst += "/"
+			}
+			dst += elem
+			first = false
+		}
+	}
+	if elem == "." || elem == ".." {
+		dst += "/"
+	}
+	if len(dst) > 1 && dst[1] == '/' {
+		dst = dst[1:]
+	}
+	return dst
+}
+
+//verif:model (*net/url.URL).ResolveReference
+func mResolveReference(u *url.URL, ref *url.URL) *url.URL {
+	r := *ref
+	if ref.Scheme == "" {
+		r.Scheme = u.Scheme
+	}
+	if ref.Scheme != "" || ref.Host != "" || ref.User != nil {
+		r.Path = mResolvePath(ref.Path, "")
+		return &r
+	}
+	if ref.Opaque != "" {
+		r.User, r.Host, r.Path = nil, "", ""
+		return &r
+	}
+	if ref.Path == "" && !ref.ForceQuery && ref.RawQuery == "" {
+		r.RawQuery = u.RawQuery
+		if ref.Fragment == "" {
+			r.Fragment = u.Fragment
+		}
+	}
+	r.Host = u.Host
+	r.User = u.User
+	r.Path = mResolvePath(u.Path, ref.Path)
+	return &r
+}
